@@ -341,6 +341,34 @@ def run(ctx):
     ctx.attempt(_r16)
     ctx.attempt(_r17)
     ctx.attempt(_r18)
+    ctx.attempt(_r19)
+
+
+def _r19(ctx):
+    """R-C13-19: the keys of a caller-supplied Series / frame (parameter names, column labels, index keys) are never turned into
+    Python keyword names: no `f(**<caller object>)` in the broadcaster.  Keyword expansion needs string keys; a parameter set
+    keyed by integers or tuples (`pd.Series([1., 2., 3.])` broadcast to an array) raises TypeError instead of being broadcast."""
+    prog = ctx.prog
+    ctx.rule("R-C13-19", floor=10, what="no keyword expansion of a caller-supplied pandas object in the broadcaster")
+    for k, fi in sorted(prog.functions.items()):
+        if fi.module.name != MOD:
+            continue
+        bad = None
+        for c in calls_in(fi.node):
+            for kw in c.keywords:
+                if kw.arg is None:
+                    v = kw.value
+                    base = v.func.value if isinstance(v, ast.Call) and isinstance(v.func, ast.Attribute) and \
+                        v.func.attr in ("to_dict", "items") else v
+                    caller = is_self_attr(base, "_obj") or (isinstance(base, ast.Name) and base.id in fi.params)
+                    if caller and not (isinstance(v, ast.Name) and v.id in ("kwargs", "kw", "kwds")):
+                        bad = (c, v)
+        if bad:
+            ctx.violated(fi, bad[0], "%s expands the caller's object `%s` into keyword arguments: its keys must then be strings - a "
+                         "parameter set keyed by integers or tuples raises TypeError instead of being broadcast" %
+                         (fi.qualname, norm_text(bad[1])), text="keyword expansion of a caller-supplied object")
+        else:
+            ctx.holds(fi, fi.node, "%s: no keyword expansion of a caller-supplied object" % fi.qualname)
 
 
 _ZERO_DIM_TESTS = ("%s.shape == ()", "() == %s.shape", "%s.ndim == 0", "0 == %s.ndim", "np.ndim(%s) == 0", "0 == np.ndim(%s)",
@@ -1364,6 +1392,13 @@ def variants():
         f.body.insert(i + 1, parse_stmt("haigh.iloc[R_index.get_indexer_for([0])] = haigh_frame.iloc[R_index.get_indexer_for([0]), 0] * 0"))
         return True
     out.append(witness("fkm_goodman pairs the broadcast index frame with the dummy series by position", MS, goodman_positional, "R-C13-16"))
+
+    def assign_by_keywords(tree):
+        f = find_func(tree, "Broadcaster._broadcasted_dataframe")
+        f.body = [parse_stmt("data = np.empty((len(parameter), len(self._obj)))"),
+                  parse_stmt("return pd.DataFrame(data, columns=self._obj.index).assign(**self._obj)")]
+        return True
+    out.append(witness("parameter set expanded into keyword arguments of DataFrame.assign", PATH, assign_by_keywords, "R-C13-19"))
 
     def one_element_is_scalar(tree):
         f = find_func(tree, "Broadcaster._broadcast_series")
